@@ -17,6 +17,7 @@
  *   short <n>      perform read/write with the count cut to n bytes (n >= 1)
  *   err <errno>    fail the call with <errno> without performing it
  *   crash          _exit(137) before performing the call
+ *   eof            read() returns 0 without reading: the file ends before its announced size
  * Trace file (VERIF_TRACE), one line per tracked call:
  *   <index> <call> <fd> <path-or-dash> <requested> <result> <errno> <fault-or-dash>
  */
@@ -36,7 +37,7 @@
 #define MAX_FD 4096
 #define MAX_PLAN 256
 
-enum kind { K_NONE = 0, K_EINTR, K_SHORT, K_ERR, K_CRASH };
+enum kind { K_NONE = 0, K_EINTR, K_SHORT, K_ERR, K_CRASH, K_EOF };
 
 struct entry {
     long idx;
@@ -127,6 +128,7 @@ static void init(void) {
                 else if (!strcmp(kind, "short")) en.kind = K_SHORT;
                 else if (!strcmp(kind, "err")) en.kind = K_ERR;
                 else if (!strcmp(kind, "crash")) en.kind = K_CRASH;
+                else if (!strcmp(kind, "eof")) en.kind = K_EOF;
                 if (en.kind != K_NONE) plan[plan_len++] = en;
             }
             active = 1;
@@ -250,6 +252,11 @@ ssize_t read(int fd, void *buf, size_t count) {
             trace(idx, "read", fd, NULL, (long)count, -1, e, en->kind == K_EINTR ? "eintr" : "err");
             errno = e;
             return -1;
+        }
+        if (en->kind == K_EOF) {
+            /* premature end of file: the file was cut short after it was opened */
+            trace(idx, "read", fd, NULL, (long)count, 0, 0, "eof");
+            return 0;
         }
         if (en->kind == K_SHORT && en->arg >= 1 && (size_t)en->arg < count) {
             want = (size_t)en->arg;
